@@ -897,6 +897,9 @@ func (d *Decoder) Decode() (Assertion, error) {
 	if err != nil {
 		return nil, fmt.Errorf("assertion: %v", err)
 	}
+	if length < 0 {
+		return nil, fmt.Errorf("assertion body length %d is negative", length)
+	}
 	if typMaxBodySize := d.typeMaxBodySize[typ]; typMaxBodySize != 0 && length > typMaxBodySize {
 		return nil, fmt.Errorf("assertion body length %d exceeds maximum body size %d for %q assertions", length, typMaxBodySize, typ.Name)
 	} else if length > d.defaultMaxBodySize {
